@@ -26,7 +26,7 @@ type C09Case struct {
 	Deep   int    `json:"deep,omitempty"` // stack family: what sits at the deepest stack position (0 variable, 1 zero-operand call, 2 unary call, 3 if, 4 constant, 5 two-leaf operator)
 	Mask   int    `json:"mask"`
 	Events int    `json:"events"`
-	Reach  bool   `json:"reach"` // binding reaches the deepest point (else short-circuits early)
+	Reach  bool   `json:"reach"`          // binding reaches the deepest point (else short-circuits early)
 	Ifs    int    `json:"ifs,omitempty"`  // nodes family: this many leaves are replaced by an if (5 nodes each, one of them the end-if marker)
 	Bins   int    `json:"bins,omitempty"` // nodes family: this many leaves are replaced by a two-leaf operator (3 nodes each, inlined under FastEvaluation)
 }
